@@ -332,28 +332,38 @@ def run_tsu(case, ctx):
     tt = pr.uniform(-1, 1)
     order = pr.choice([1, 2])
     r = pr.randint(1, 3)
-    k = pr.randint(1, 3)
     method = pr.choice(["time", "repeat"])
-    ctrl = pr.choice([n, [n], [n, n + 1]])
-    clist = [ctrl] if isinstance(ctrl, int) else ctrl
-    n_tot = max(clist) + 1
     tsu = TrotterSuzukiUnitary(op, time=tt, trotter_order=order, n_trotter_steps=r, n_steps_method=method)
-    circ = tsu.build_circuit(k, control=ctrl)
-    u = circ_unitary(circ, n_tot)
     H = refsim.qubit_operator_matrix(terms, n)
-    exact = embed_on(expm(-1j * tt * k * H), list(range(n)), clist, n_tot)
-    err = float(np.linalg.norm(u - exact, 2))
     ordered = [refsim.qubit_operator_matrix({t: c}, n) for t, c in op.terms.items() if t]
-    if method == "time":
-        b1, b2 = commutator_bounds(ordered, tt * k, r)
-    else:
-        b1, b2 = commutator_bounds(ordered, tt, r)
-        b1, b2 = b1 * k, b2 * k
-    bound = (b1 if order == 1 else b2) + 1e-8
-    ctx.check("trotter_suzuki_unitary", err <= bound,
-              f"controlled TrotterSuzukiUnitary.build_circuit(n_steps={k}, method={method}) error {err:.3e} exceeds the order-{order} bound {bound:.3e}",
-              lambda: {"n": n, "terms": [[list(map(list, t)), c] for t, c in terms.items()], "time": tt, "order": order, "n_trotter_steps": r,
-                       "n_steps": k, "method": method, "control": ctrl, "error": err, "bound": bound})
+    # one unitary object, several requests (as phase estimation does: powers 2**i, each with its own control qubit); the same power is
+    # also requested again with another control
+    k = pr.randint(1, 3)
+    requests = [(k, pr.choice([n, [n], [n, n + 1]]))]
+    for _ in range(pr.randint(1, 3)):
+        requests.append((pr.choice([k, k, pr.randint(1, 3)]), pr.choice([n, n + 1, [n], [n + 1], [n, n + 1], None])))
+    for k, ctrl in requests:
+        clist = [] if ctrl is None else ([ctrl] if isinstance(ctrl, int) else ctrl)
+        n_tot = max(clist + [n - 1]) + 1
+        circ = tsu.build_circuit(k, control=ctrl)
+        if circ.width > n_tot:
+            ctx.check("trotter_suzuki_unitary", False, "TrotterSuzukiUnitary circuit uses qubits outside the system + control registers",
+                      lambda: {"n": n, "control": ctrl, "width": circ.width, "requests": requests})
+            break
+        u = circ_unitary(circ, n_tot)
+        exact = embed_on(expm(-1j * tt * k * H), list(range(n)), clist, n_tot)
+        # an uncontrolled circuit is compared up to the global phase the circuit does not carry
+        err = float(np.linalg.norm(u - exact, 2)) if clist else float(np.linalg.norm(u - refsim.phase_align(u, exact), 2))
+        if method == "time":
+            b1, b2 = commutator_bounds(ordered, tt * k, r)
+        else:
+            b1, b2 = commutator_bounds(ordered, tt, r)
+            b1, b2 = b1 * k, b2 * k
+        bound = (b1 if order == 1 else b2) + 1e-8
+        ctx.check("trotter_suzuki_unitary", err <= bound,
+                  f"controlled TrotterSuzukiUnitary.build_circuit(n_steps={k}, method={method}, control={ctrl}) error {err:.3e} exceeds the order-{order} bound {bound:.3e}",
+                  lambda: {"n": n, "terms": [[list(map(list, t)), c] for t, c in terms.items()], "time": tt, "order": order, "n_trotter_steps": r,
+                           "n_steps": k, "method": method, "control": ctrl, "requests_on_this_object": requests, "error": err, "bound": bound})
     ctx.nontrivial(("tsu", n, sorted(map(repr, terms.items())), tt, order, r, k, method, repr(ctrl)))
     ctx.sample({"sub": "tsu", "n": n, "n_terms": len(terms), "order": order, "method": method, "control": ctrl})
 
